@@ -285,7 +285,10 @@ def install(ip):
     def d_copy(ip, d, a, k):
         if d.symbolic:
             n = PDict(dom=d.dom, mp=d.mp, kty=d.kty, vty=d.vty, size=d.size, kind=d.kind)
-            n.objmap = d.objmap
+            n.objmap = None if d.objmap is None else list(d.objmap)
+            for a_ in ("template", "where", "name"):
+                if hasattr(d, a_):
+                    setattr(n, a_, getattr(d, a_))
             return n
         return PDict(dict(d.items), kind=d.kind, default_factory=d.default_factory)
 
